@@ -126,12 +126,12 @@ theorem gen_echo :
     MpsGen.Session.checkBroadcastHashRanges = ["_, msg := range h.messages[number]", "_, msg := range h.broadcast[number]"] ∧
     MpsGen.Session.finalizeEcho =
       [ "h.receivedAll()", "h.checkBroadcastHash()",
-        "if !h.checkBroadcastHash(): h.abort(errors.New(\"broadcast verification failed\"))",
+        "if !h.checkBroadcastHash(): h.abort(errBroadcastVerification)",
         "h.currentRound.Finalize(out)",
         "if err != nil || r == nil: h.abort(err, h.currentRound.SelfID())",
         "h.abort(R.Err, R.Culprits...)", "h.abort(nil)",
-        "if _, ok := r.(round.BroadcastRound); ok: if err = h.verifyBroadcastMessage(m); err != nil: h.abort(err, m.From)",
-        "if else: if err = h.verifyMessage(m); err != nil: h.abort(err, m.From)" ] := by
+        "if _, ok := r.(round.BroadcastRound); ok: if err = h.verifyBroadcastMessage(m); err != nil: h.abortVerification(err, m.From)",
+        "if else: if err = h.verifyMessage(m); err != nil: h.abortVerification(err, m.From)" ] := by
   decide
 
 end Mps.C06
